@@ -25,8 +25,37 @@ def ctx_file(ctx_name):
     return ctx_name.replace(".", "/") + ".py"
 
 
+MODULE_CTX = "modules.pvh"
+
+
+def norm_ctxs(case):
+    """the two script contexts of the case + the context of the helper module"""
+    ctxs = list(case["ctxs"])
+    return ctxs if len(ctxs) >= 3 else ctxs + [MODULE_CTX]
+
+
+def helper_src(fname, ci):
+    """a function defined in context ci that calls task.unique / task.name2id itself: when another context's task calls it,
+    pyscript switches the global context to ci for the duration of the call"""
+    return [
+        f"def {fname}(tid, name, km):",
+        f'    rec.mark(tid, "pre", [name, km, {ci}], task.name2id(), {ci})',
+        "    task.unique(name, kill_me=km)",
+        "    try:",
+        "        w = task.name2id(name)",
+        "    except NameError:",
+        "        w = None",
+        f'    rec.mark(tid, "post", [rec.who(w)], task.name2id(), {ci})',
+        "",
+    ]
+
+
+def module_src():
+    return "\n".join(["import vh.workers.c13_rec as rec", ""] + helper_src("hu", 2)) + "\n"
+
+
 def script_for(case, ctx_id):
-    lines = ["import vh.workers.c13_rec as rec", ""]
+    lines = ["import vh.workers.c13_rec as rec", "import pvh", ""] + helper_src("hx", ctx_id) + [f"rec.share({ctx_id}, hx)", ""]
     for tid, t in enumerate(case["tasks"]):
         if t["ctx"] != ctx_id or t["kind"] == "foreign":
             continue
@@ -35,62 +64,78 @@ def script_for(case, ctx_id):
             name, km = t["dec"]
             lines.append(f"@task_unique({name!r}, kill_me={bool(km)!r})")
         lines.append(f"def f{tid}():")
-        body = [f'rec.mark({tid}, "begin", None, task.name2id())']
+        mk = lambda what, arg: f'rec.mark({tid}, "{what}", {arg}, task.name2id(), {ctx_id})'
+        body = [mk("begin", None)]
         ended = False
         for op in t["ops"]:
             if op[0] == "u":
-                body.append(f'rec.mark({tid}, "pre", [{op[1]!r}, {bool(op[2])!r}], task.name2id())')
-                body.append(f"task.unique({op[1]!r}, kill_me={bool(op[2])!r})")
-                body.append(f'rec.mark({tid}, "post", None, task.name2id())')
+                where = op[3] if len(op) > 3 else 0
+                name, km = op[1], bool(op[2])
+                if where == 0:
+                    body.append(mk("pre", f"[{name!r}, {km!r}, {ctx_id}]"))
+                    body.append(f"task.unique({name!r}, kill_me={km!r})")
+                    body += ["try:", f"    w = task.name2id({name!r})", "except NameError:", "    w = None"]
+                    body.append(mk("post", "[rec.who(w)]"))
+                else:
+                    if where == 1:
+                        body.append(f"rec.shared[{1 - ctx_id}]({tid}, {name!r}, {km!r})")
+                    else:
+                        body.append(f"pvh.hu({tid}, {name!r}, {km!r})")
+                    body.append(mk("ret", None))
             elif op[0] == "s":
                 body.append(f"task.sleep({op[1] * TICK!r})" if op[1] > 0 else "task.sleep(0)")
-                body.append(f'rec.mark({tid}, "wake", None, task.name2id())')
+                body.append(mk("wake", None))
             elif op[0] == "r":
-                body.append(f'rec.mark({tid}, "end", "r", task.name2id())')
+                body.append(mk("end", '"r"'))
                 body.append('raise ValueError("pv")')
                 ended = True
                 break
             elif op[0] == "f":
-                body.append(f'rec.mark({tid}, "end", "f", task.name2id())')
+                body.append(mk("end", '"f"'))
                 body.append("return")
                 ended = True
                 break
         if not ended:
-            body.append(f'rec.mark({tid}, "end", "f", task.name2id())')
+            body.append(mk("end", '"f"'))
         lines += ["    " + b for b in body]
         lines.append("")
     return "\n".join(lines) + "\n"
 
 
-async def foreign_task(tid, t, ctx_name):
+async def foreign_task(tid, t, ctx_name, ci):
     from custom_components.pyscript.function import Function
 
     ctx = rec._Ctx(ctx_name)  # pylint: disable=protected-access
     unique = Function.task_unique_factory(ctx)
     name2id = Function.task_name2id_factory(ctx)
-    rec.mark(tid, "begin", None, name2id())
+    rec.mark(tid, "begin", None, name2id(), ci)
     for op in t["ops"]:
         if op[0] == "u":
-            rec.mark(tid, "pre", [op[1], bool(op[2])], name2id())
+            rec.mark(tid, "pre", [op[1], bool(op[2]), ci], name2id(), ci)
             await unique(op[1], kill_me=bool(op[2]))
-            rec.mark(tid, "post", None, name2id())
+            try:
+                w = name2id(op[1])
+            except NameError:
+                w = None
+            rec.mark(tid, "post", [rec.who(w)], name2id(), ci)
         elif op[0] == "s":
             await asyncio.sleep(op[1] * TICK)
-            rec.mark(tid, "wake", None, name2id())
+            rec.mark(tid, "wake", None, name2id(), ci)
         elif op[0] == "r":
-            rec.mark(tid, "end", "r", name2id())
+            rec.mark(tid, "end", "r", name2id(), ci)
             raise ValueError("pv")
         elif op[0] == "f":
             break
     else:
-        rec.mark(tid, "end", "f", name2id())
+        rec.mark(tid, "end", "f", name2id(), ci)
         return
-    rec.mark(tid, "end", "f", name2id())
+    rec.mark(tid, "end", "f", name2id(), ci)
 
 
 async def run_case(case):
-    ctxs = case["ctxs"]
-    files = {ctx_file(c): script_for(case, i) for i, c in enumerate(ctxs)}
+    ctxs = norm_ctxs(case)
+    files = {ctx_file(c): script_for(case, i) for i, c in enumerate(ctxs[:2])}
+    files[ctx_file(ctxs[2])] = module_src()
     errors = []
     rec.reset(ctxs)
     async with PyscriptEnv(files=files, legacy=bool(case["legacy"])) as env:
@@ -111,7 +156,7 @@ async def run_case(case):
 
         def spawn(tid, t):
             rec.note("fire", tid)
-            task = loop.create_task(foreign_task(tid, t, ctxs[t["ctx"]]))
+            task = loop.create_task(foreign_task(tid, t, ctxs[t["ctx"]], t["ctx"]))
             rec.tasks[task] = tid
             foreign.append(task)
 
